@@ -1,4 +1,4 @@
-import EsbuildModel.Lemmas.IsoHashInj
+import EsbuildModel.Lemmas.IsoHashTail
 import EsbuildModel.Lemmas.IsoHashName
 import EsbuildModel.Lemmas.IsoHashOutput
 /-! # C18 — the ISOLATED hash of one chunk and the hashed name: property theorems
@@ -6,7 +6,8 @@ import EsbuildModel.Lemmas.IsoHashOutput
 Model: `Impl/IsoHash.lean` (`generateIsolatedHash`, the streaming xxhash digest, `HashForFileName`).
 `Tuple` (Lemmas/IsoHash.lean) is what the routine mixes in: file entries (namespace, path, part range) of a
 JS chunk, the `Data` of the template parts, the public path, the pieces' data spans, the three
-source-map pieces, the external legal comments.
+source-map pieces, how the map is attached (`c.options.SourceMap`, only when the map has content), the
+external legal comments and how they are attached (`c.options.LegalComments`, only when there are any).
 -/
 namespace EsbuildModel.C18IsoHash
 open EsbuildModel.IsoHash
@@ -26,7 +27,8 @@ theorem isolated_hash_function_of_preimage (ctx : Ctx) (c : Chunk) :
 
 /-- The bytes fed to the hash are the encoding `encode` of the chunk's tuple: the file entries
 (`lenPrefixed ns ++ lenPrefixed path ++ le32 begin ++ le32 end`) followed by the length-prefixed items
-template parts, public path (if not empty), piece data, source-map prefix / mappings / suffix, legal comments
+template parts, public path (if not empty), piece data, source-map prefix / mappings / suffix, then the raw
+uint32 source-map mode (if the map has content) and the legal comments followed by their raw uint32 mode
 (if not empty).  The routine panics exactly when a part range names a file outside `c.graph.Files`. -/
 theorem preimage_is_tuple_encoding (ctx : Ctx) (c : Chunk) :
     preimage ctx c = (tupleOf ctx c).map encode := preimage_eq_encode ctx c
@@ -34,26 +36,32 @@ theorem preimage_is_tuple_encoding (ctx : Ctx) (c : Chunk) :
 /-! ## 1. Injectivity of the pre-image
 
 -- OPEN `isolated_preimage_injective` (full statement):
---   ∀ a b : Tuple, Fits a → Fits b → encode a = encode b → a = b
+--   ∀ a b : Tuple, a.WF → b.WF → Fits a → Fits b → encode a = encode b → a = b
 -- is FALSE of the code: the number of file entries, of template parts and of pieces, and whether the
--- public path / the legal comments were written, are not written to the hash, so different tuples can
--- have the same pre-image (the four `example`s after the theorem; the second one was run end to end on the
--- real binary: same hash `T77MEJVX` for `--entry-names=[name]-[hash] --public-path=.js` and for
--- `--entry-names=[name]-[hash].js[hash]`).  What holds is the statement under the shape hypotheses below.
+-- public path / the source-map mode / the legal comments were written, are not written to the hash, so
+-- different tuples can have the same pre-image (the six `example`s after the theorem; every family is
+-- replayed on the real routine by the kernel, stat `collision-pair-*`; the second one was also run end to
+-- end: same hash for `--entry-names=[name]-[hash] --public-path=.js` and `--entry-names=[name]-[hash].js[hash]`).
+-- What holds is the statement under the shape hypotheses below.
 -/
 
 /-- Two chunks (of any two builds) with the same pre-image have the same tuple, provided
 * every written length fits its uint32 prefix (`Fits`),
 * both source maps are absent or start with `{` while their mappings do not (`SMShape`: true of every map
   `generateSourceMapForChunk` writes),
+* a written source-map mode is 1–4 (`ModeShape`: under SourceMapNone = 0 no map is generated),
+* external legal comments, when present, have at least four bytes, no NUL among the first four, and are
+  shorter than 16 MiB − 8 (`LegalShape`),
 * both templates have the same, non-zero number of parts (same `--entry-names` / `--chunk-names` shape),
 * the public path is empty in both or in neither,
 * no file's namespace is equal to the first template part of either chunk.
-The numbers of part ranges and of pieces, and the presence of the legal comments, need NOT be assumed equal:
-they are recovered. -/
+The numbers of part ranges and of pieces, the presence of a source map and of the legal comments, and both
+modes need NOT be assumed equal: they are recovered. -/
 theorem isolated_preimage_injective_partial (ctx ctx' : Ctx) (c c' : Chunk) (a b : Tuple)
     (ha : tupleOf ctx c = some a) (hb : tupleOf ctx' c' = some b)
     (fa : Fits a) (fb : Fits b) (sa : SMShape a.sm) (sb : SMShape b.sm)
+    (ma : ModeShape a.smMode) (mb : ModeShape b.smMode)
+    (la : LegalShape a.legal) (lb : LegalShape b.legal)
     (hT : a.tmpl.length = b.tmpl.length) (hTne : a.tmpl ≠ [])
     (hP : a.pub = [] ↔ b.pub = [])
     (hns : ∀ f ∈ a.files ++ b.files, a.tmpl.head? ≠ some f.ns ∧ b.tmpl.head? ≠ some f.ns)
@@ -62,128 +70,198 @@ theorem isolated_preimage_injective_partial (ctx ctx' : Ctx) (c c' : Chunk) (a b
   simp only [Option.map_some, Option.some.injEq, encode] at h
   have hTne' : b.tmpl ≠ [] := by
     intro h0; rw [h0] at hT; exact hTne (List.eq_nil_of_length_eq_zero hT)
-  obtain ⟨hF, hI⟩ := files_items_inj a.files b.files (items a) (items b) fa.files fb.files fa.items fb.items
+  obtain ⟨hF, hI⟩ := files_inj a.files b.files (items a) (items b) _ _ fa.files fb.files fa.items fb.items
     (items_ne_nil a) (items_ne_nil b)
     (fun f hf => by rw [items_head a hTne]; exact (hns f (by simp [hf])).1)
     (fun f hf => by rw [items_head b hTne']; exact (hns f (by simp [hf])).2) h
-  obtain ⟨h1, h2, h3, h4, h5⟩ := items_inj a b hT hP sa sb hI
+  obtain ⟨h1, h2, h3, h4, h5, h6, h7⟩ := items_tail_inj a b fa fb
+    ⟨tupleOf_wf ctx c a ha, sa, ma, la⟩ ⟨tupleOf_wf ctx' c' b hb, sb, mb, lb⟩ hT hP hI
   cases a; cases b; simp_all
 
-/-- non-vacuity: a JS chunk with the SAME path in two namespaces, two pieces, a source map and legal
-comments meets every hypothesis (against itself), and a chunk that differs only in the namespace of the
-second file has a different pre-image. -/
+/-- non-vacuity: a JS chunk with the SAME path in two namespaces, two pieces, a linked source map and linked
+legal comments meets every hypothesis (against itself), and a chunk that differs only in the namespace of
+the second file, or only in the way the source map is attached (linked / external), has a different
+pre-image. -/
 example :
     let files : List FileInfo := [⟨nsFile, [47, 97], [97]⟩, ⟨[104], [97], [97]⟩, ⟨nsFile, [97], [98]⟩]
-    let ctx : Ctx := ⟨files, []⟩
+    let ctx (smMode : Nat) : Ctx := ⟨files, [], smMode, 3⟩
     let sm : SMPieces := ⟨[123, 34], [65, 65, 65, 65], [34, 125]⟩
     let mk (second : Nat) : Chunk :=
       ⟨.js [⟨0, 0, 3⟩, ⟨second, 1, 2⟩], [[46, 47, 97, 45], [46, 106, 115]],
-       .pieces [⟨[97, 98], 1, .chunk, []⟩, ⟨[99], 0, .none, []⟩], sm, [47, 42, 33]⟩
-    ∃ a b, tupleOf ctx (mk 1) = some a ∧ tupleOf ctx (mk 2) = some b ∧
-      Fits a ∧ Fits b ∧ SMShape a.sm ∧ a.tmpl.length = b.tmpl.length ∧ a.tmpl ≠ [] ∧
-      (a.pub = [] ↔ b.pub = []) ∧
+       .pieces [⟨[97, 98], 1, .chunk, []⟩, ⟨[99], 0, .none, []⟩], sm, [47, 42, 33, 120, 42, 47, 10]⟩
+    ∃ a b, tupleOf (ctx 2) (mk 1) = some a ∧ tupleOf (ctx 2) (mk 2) = some b ∧
+      Fits a ∧ Fits b ∧ SMShape a.sm ∧ ModeShape a.smMode ∧ LegalShape a.legal ∧
+      a.tmpl.length = b.tmpl.length ∧ a.tmpl ≠ [] ∧ (a.pub = [] ↔ b.pub = []) ∧
       (∀ f ∈ a.files ++ b.files, a.tmpl.head? ≠ some f.ns ∧ b.tmpl.head? ≠ some f.ns) ∧
-      a ≠ b ∧ preimage ctx (mk 1) ≠ preimage ctx (mk 2) := by
-  refine ⟨_, _, rfl, rfl, ⟨by decide, by decide⟩, ⟨by decide, by decide⟩, ?_, by decide, by decide,
-    by decide, by decide, by decide, by decide⟩
-  exact Or.inr ⟨by decide, by decide⟩
+      a ≠ b ∧ preimage (ctx 2) (mk 1) ≠ preimage (ctx 2) (mk 2) ∧
+      preimage (ctx 2) (mk 1) ≠ preimage (ctx 3) (mk 1) := by
+  refine ⟨_, _, rfl, rfl, ⟨by decide, by decide, by decide, by decide, by decide⟩,
+    ⟨by decide, by decide, by decide, by decide, by decide⟩, Or.inr ⟨by decide, by decide⟩, ?_, ?_,
+    by decide, by decide, by decide, by decide, by decide, by decide, by decide⟩
+  · intro v hv; cases hv; decide
+  · exact Or.inr ⟨_, _, _, _, _, rfl, by decide, by decide, by decide, by decide, by decide⟩
 
-/-- FALSE without the hypotheses (1/4): a file entry with `partIndexBegin = 4` reads like three template
+/-- FALSE without the hypotheses (1/6): a file entry with `partIndexBegin = 4` reads like three template
 parts — the number of entries is not written. -/
 example :
-    let a : Tuple := ⟨[⟨nsFile, [112], 4, 7⟩], [], [], [[120]], ⟨[], [], []⟩, []⟩
-    let b : Tuple := ⟨[], [nsFile, [112], [7, 0, 0, 0]], [], [[120]], ⟨[], [], []⟩, []⟩
-    Fits a ∧ Fits b ∧ a ≠ b ∧ encode a = encode b := by
-  exact ⟨⟨by decide, by decide⟩, ⟨by decide, by decide⟩, by decide, by decide⟩
+    let a : Tuple := ⟨[⟨nsFile, [112], 4, 7⟩], [], [], [[120]], ⟨[], [], []⟩, none, [], none⟩
+    let b : Tuple := ⟨[], [nsFile, [112], [7, 0, 0, 0]], [], [[120]], ⟨[], [], []⟩, none, [], none⟩
+    a ≠ b ∧ encode a = encode b := by
+  decide
 
-/-- FALSE without the hypotheses (2/4): template `a-[hash].js` with public path `.js` against template
-`a-[hash].js[hash].js` without public path (run on the real binary: both builds get the hash T77MEJVX). -/
+/-- FALSE without the hypotheses (2/6): template `a-[hash].js` with public path `.js` against template
+`a-[hash].js[hash].js` without public path (run on the real binary: both builds get the same hash). -/
 example :
-    let a : Tuple := ⟨[], [[97, 45], [46, 106, 115]], [46, 106, 115], [[120]], ⟨[], [], []⟩, []⟩
-    let b : Tuple := ⟨[], [[97, 45], [46, 106, 115], [46, 106, 115]], [], [[120]], ⟨[], [], []⟩, []⟩
-    Fits a ∧ Fits b ∧ a ≠ b ∧ encode a = encode b := by
-  exact ⟨⟨by decide, by decide⟩, ⟨by decide, by decide⟩, by decide, by decide⟩
+    let a : Tuple := ⟨[], [[97, 45], [46, 106, 115]], [46, 106, 115], [[120]], ⟨[], [], []⟩, none, [], none⟩
+    let b : Tuple := ⟨[], [[97, 45], [46, 106, 115], [46, 106, 115]], [], [[120]], ⟨[], [], []⟩, none, [], none⟩
+    a ≠ b ∧ encode a = encode b := by
+  decide
 
-/-- FALSE without the hypotheses (3/4): a public path reads like a first piece. -/
+/-- FALSE without the hypotheses (3/6): a public path reads like a first piece. -/
 example :
-    let a : Tuple := ⟨[], [[97]], [120], [[121]], ⟨[], [], []⟩, []⟩
-    let b : Tuple := ⟨[], [[97]], [], [[120], [121]], ⟨[], [], []⟩, []⟩
-    Fits a ∧ Fits b ∧ a ≠ b ∧ encode a = encode b := by
-  exact ⟨⟨by decide, by decide⟩, ⟨by decide, by decide⟩, by decide, by decide⟩
+    let a : Tuple := ⟨[], [[97]], [120], [[121]], ⟨[], [], []⟩, none, [], none⟩
+    let b : Tuple := ⟨[], [[97]], [], [[120], [121]], ⟨[], [], []⟩, none, [], none⟩
+    a ≠ b ∧ encode a = encode b := by
+  decide
 
-/-- FALSE without `SMShape` (4/4): legal comments read like a source-map suffix after one more (empty)
-piece; the right-hand source map (empty prefix, non-empty suffix) is one esbuild never produces. -/
+/-- FALSE without `SMShape` (4/6): legal comments and their mode 3 read like a source-map suffix and ITS mode 3
+(ExternalWithoutComment) after one more (empty) piece; the right-hand map (empty prefix, non-empty suffix)
+is one esbuild never produces. -/
 example :
-    let a : Tuple := ⟨[], [[97]], [], [[120]], ⟨[], [], []⟩, [122]⟩
-    let b : Tuple := ⟨[], [[97]], [], [[120], []], ⟨[], [], [122]⟩, []⟩
-    Fits a ∧ Fits b ∧ SMShape a.sm ∧ ¬ SMShape b.sm ∧ a ≠ b ∧ encode a = encode b := by
+    let a : Tuple := ⟨[], [[97]], [], [[120]], ⟨[], [], []⟩, none, [122], some 3⟩
+    let b : Tuple := ⟨[], [[97]], [], [[120], []], ⟨[], [], [122]⟩, some 3, [], none⟩
+    a.WF ∧ b.WF ∧ SMShape a.sm ∧ ¬ SMShape b.sm ∧ a ≠ b ∧ encode a = encode b := by
   refine ⟨⟨by decide, by decide⟩, ⟨by decide, by decide⟩, Or.inl (by decide), ?_, by decide, by decide⟩
   rintro (h | h) <;> revert h <;> decide
 
-/-! ## 2. The hashed tuple covers the chunk file
+/-- FALSE without `ModeShape` (5/6): a map with content under SourceMapNone — the mode 0 reads like an empty
+item, so the map's pieces read like one more piece in front of an empty map. -/
+example :
+    let a : Tuple := ⟨[], [[97]], [], [[120]], ⟨[123], [], []⟩, some 0, [], none⟩
+    let b : Tuple := ⟨[], [[97]], [], [[120], [123]], ⟨[], [], []⟩, none, [], none⟩
+    a.WF ∧ b.WF ∧ SMShape a.sm ∧ SMShape b.sm ∧ a ≠ b ∧ encode a = encode b := by
+  exact ⟨⟨by decide, by decide⟩, ⟨by decide, by decide⟩, Or.inr ⟨by decide, by decide⟩, Or.inl (by decide),
+    by decide, by decide⟩
 
-`finalContents pathOf out` is what `substituteFinalPaths` returns for the chunk (the joiner itself when
-there are no pieces, otherwise every piece's data followed by the final path of the asset / chunk the
-piece refers to); `refsOf pathOf out` is the list of those substituted paths, one per piece.
+/-- FALSE without `LegalShape` (6/6): mode 4 followed by legal comments that begin with twelve NUL bytes and
+a length prefix read like four more pieces, an empty map and shorter legal comments. -/
+example :
+    let a : Tuple := ⟨[], [[97]], [], [[120]], ⟨[123], [65], [125]⟩, some 4,
+                      [0, 0, 0, 0, 0, 0, 0, 0, 0, 0, 0, 0, 4, 0, 0, 0, 47, 47, 33, 10], some 3⟩
+    let b : Tuple := ⟨[], [[97]], [], [[120], [123], [65], [125], [20, 0, 0, 0]], ⟨[], [], []⟩, none,
+                      [47, 47, 33, 10], some 3⟩
+    a.WF ∧ b.WF ∧ SMShape a.sm ∧ SMShape b.sm ∧ ModeShape a.smMode ∧ ¬ LegalShape a.legal ∧ a ≠ b ∧
+      encode a = encode b := by
+  refine ⟨⟨by decide, by decide⟩, ⟨by decide, by decide⟩, Or.inr ⟨by decide, by decide⟩, Or.inl (by decide),
+    ?_, ?_, by decide, by decide⟩
+  · intro v hv; cases hv; decide
+  · rintro (h | ⟨c0, c1, c2, c3, r, h, h0, _⟩)
+    · revert h; decide
+    · simp only [List.cons.injEq] at h
+      exact h0 h.1.symm
+
+/-! ## 2. The hashed tuple covers the chunk file, trailer included
+
+`finalFile ctx c pathOf own` is `outputContents` of `generateChunksInParallel`: the substituted contents
+(`substituteFinalPaths`: the joiner itself when there are no pieces, otherwise every piece's data followed by
+the final path of the asset / chunk the piece refers to), then the link to the legal-comments file under
+LegalCommentsLinkedWithComment, then the source-map comment (URL under SourceMapLinkedWithComment, the whole
+map as a data URL under SourceMapInline / SourceMapInlineAndExternal).  `refsOf pathOf out` are the
+substituted paths, one per piece; `own` are the strings derived from the chunk's OWN final path (the path of
+the .LEGAL.txt file, the escaped path of the .map file, the base64 text of the finished map).
 -/
 
 /-- If two chunks (of any two builds) have the same tuple — which holds when their isolated pre-images
-are equal under the hypotheses of `isolated_preimage_injective_partial` — and the paths substituted for
-their references to OTHER files are the same, in order, then the chunk files have the same bytes, and the
-source-map pieces and the legal-comments file are the same too. -/
+are equal under the hypotheses of `isolated_preimage_injective_partial` — are both JS or both CSS, and the
+paths substituted for their references to OTHER files and the strings derived from their OWN final path are
+the same, then the FINAL chunk files, trailer included, have the same bytes; the source-map pieces and the
+legal-comments file are the same too. -/
 theorem isolated_covers_output (ctx ctx' : Ctx) (c c' : Chunk) (t : Tuple)
-    (pathOf pathOf' : Kind → Nat → List Nat)
+    (pathOf pathOf' : Kind → Nat → List Nat) (own : OwnPaths)
     (h : tupleOf ctx c = some t) (h' : tupleOf ctx' c' = some t)
+    (hkind : isCSS c.repr = isCSS c'.repr)
     (hrefs : refsOf pathOf c.out = refsOf pathOf' c'.out) :
-    finalContents pathOf c.out = finalContents pathOf' c'.out ∧
+    finalFile ctx c pathOf own = finalFile ctx' c' pathOf' own ∧
     c.outputSourceMap = c'.outputSourceMap ∧
     c.externalLegalComments = c'.externalLegalComments := by
+  obtain ⟨hp, hs⟩ := comment_style c.repr c'.repr hkind
+  refine ⟨by rw [finalFile_eq ctx c t pathOf own h, finalFile_eq ctx' c' t pathOf' own h', hp, hs, hrefs], ?_⟩
   unfold tupleOf at h h'
   cases he : fileEntries ctx c <;> rw [he] at h <;> simp only [reduceCtorEq, Option.some.injEq] at h
   cases he' : fileEntries ctx' c' <;> rw [he'] at h' <;> simp only [reduceCtorEq, Option.some.injEq] at h'
   subst h
   simp only [Tuple.mk.injEq] at h'
-  obtain ⟨_, _, _, hd, hs, hl⟩ := h'
-  refine ⟨?_, hs.symm, hl.symm⟩
-  rw [finalContents_eq_zip, finalContents_eq_zip, hd, hrefs]
+  exact ⟨h'.2.2.2.2.1.symm, h'.2.2.2.2.2.2.1.symm⟩
 
-/-- the contrapositive a user relies on: if the bytes of the chunk file differ although every reference was
-substituted by the same path, then the hashed tuples differ. -/
+/-- the contrapositive a user relies on: if the bytes of the final chunk file (or the map pieces, or the
+legal-comments file) differ although every reference and every own-path string is the same, then the
+hashed tuples differ. -/
 theorem output_change_changes_tuple (ctx ctx' : Ctx) (c c' : Chunk) (t t' : Tuple)
-    (pathOf pathOf' : Kind → Nat → List Nat)
+    (pathOf pathOf' : Kind → Nat → List Nat) (own : OwnPaths)
     (h : tupleOf ctx c = some t) (h' : tupleOf ctx' c' = some t')
+    (hkind : isCSS c.repr = isCSS c'.repr)
     (hrefs : refsOf pathOf c.out = refsOf pathOf' c'.out)
-    (hdiff : finalContents pathOf c.out ≠ finalContents pathOf' c'.out ∨
+    (hdiff : finalFile ctx c pathOf own ≠ finalFile ctx' c' pathOf' own ∨
              c.outputSourceMap ≠ c'.outputSourceMap ∨
              c.externalLegalComments ≠ c'.externalLegalComments) : t ≠ t' := by
   intro htt
   subst htt
-  obtain ⟨h1, h2, h3⟩ := isolated_covers_output ctx ctx' c c' t pathOf pathOf' h h' hrefs
+  obtain ⟨h1, h2, h3⟩ := isolated_covers_output ctx ctx' c c' t pathOf pathOf' own h h' hkind hrefs
   rcases hdiff with hd | hd | hd
   · exact hd h1
   · exact hd h2
   · exact hd h3
 
-/-- non-vacuity: a chunk whose output is kept in the joiner and a chunk with one final piece holding the
-same bytes have the same tuple (and the same file contents, `abc`); a chunk with pieces `ab`·C1·`c`
-and one with `ab`·C2·`c` have the same tuple as well, and the same contents when both references are
-substituted by the same path — and different contents when they are not (the tuple does not say WHICH
-chunk a piece refers to: known finding c18-hash-ignores-reference-order). -/
+/-- The modes that are NOT written do not matter for the file: when the map has no content the source-map
+option changes neither the tuple nor the chunk file, and without external legal comments neither does the
+legal-comments option (so nothing that changes the file was left out of the hash). -/
+theorem unwritten_modes_do_not_matter (files : List FileInfo) (pub : List Nat) (m m' l l' : Nat) (c : Chunk)
+    (pathOf : Kind → Nat → List Nat) (own : OwnPaths)
+    (hm : c.outputSourceMap.hasContent = true → m = m')
+    (hl : c.externalLegalComments ≠ [] → l = l') :
+    tupleOf ⟨files, pub, m, l⟩ c = tupleOf ⟨files, pub, m', l'⟩ c ∧
+    finalFile ⟨files, pub, m, l⟩ c pathOf own = finalFile ⟨files, pub, m', l'⟩ c pathOf own := by
+  have ht : tupleOf ⟨files, pub, m, l⟩ c = tupleOf ⟨files, pub, m', l'⟩ c := by
+    unfold tupleOf fileEntries
+    by_cases hc : c.outputSourceMap.hasContent = true <;> by_cases hL : c.externalLegalComments = [] <;>
+      simp_all
+  refine ⟨ht, ?_⟩
+  cases h : tupleOf ⟨files, pub, m, l⟩ c with
+  | some t =>
+    rw [finalFile_eq _ c t pathOf own h, finalFile_eq _ c t pathOf own (ht ▸ h)]
+  | none =>
+    unfold finalFile
+    rw [addSourceMapComment_eq, addSourceMapComment_eq, addLegalLink_eq, addLegalLink_eq]
+    by_cases hc : c.outputSourceMap.hasContent = true <;> by_cases hL : c.externalLegalComments = [] <;>
+      simp_all
+
+/-- non-vacuity: (1) joiner / one final piece: same tuple, same file `abc`; (2) pieces `ab`·C1·`c` and
+`ab`·C2·`c`: same tuple, same file when both references get the same path, different files when not (the
+tuple does not say WHICH chunk a piece refers to: known finding c18-hash-ignores-reference-order);
+(3) the trailer: linked map + linked legal comments append two comment lines, and switching the source map
+to "external" changes both the file and the tuple (the defect fixed by 4068036). -/
 example :
-    let ctx : Ctx := ⟨[], []⟩
-    let sm : SMPieces := ⟨[], [], []⟩
-    let c1 : Chunk := ⟨.css, [[97]], .joiner [97, 98, 99], sm, []⟩
-    let c2 : Chunk := ⟨.css, [[97]], .pieces [⟨[97, 98, 99], 0, .none, []⟩], sm, []⟩
-    let c3 : Chunk := ⟨.css, [[97]], .pieces [⟨[97, 98], 1, .chunk, []⟩, ⟨[99], 0, .none, []⟩], sm, []⟩
-    let c4 : Chunk := ⟨.css, [[97]], .pieces [⟨[97, 98], 2, .chunk, []⟩, ⟨[99], 0, .none, []⟩], sm, []⟩
+    let ctx : Ctx := ⟨[], [], 2, 3⟩
+    let sm0 : SMPieces := ⟨[], [], []⟩
+    let c1 : Chunk := ⟨.css, [[97]], .joiner [97, 98, 99], sm0, []⟩
+    let c2 : Chunk := ⟨.css, [[97]], .pieces [⟨[97, 98, 99], 0, .none, []⟩], sm0, []⟩
+    let c3 : Chunk := ⟨.css, [[97]], .pieces [⟨[97, 98], 1, .chunk, []⟩, ⟨[99], 0, .none, []⟩], sm0, []⟩
+    let c4 : Chunk := ⟨.css, [[97]], .pieces [⟨[97, 98], 2, .chunk, []⟩, ⟨[99], 0, .none, []⟩], sm0, []⟩
+    let c5 : Chunk := ⟨.js [], [[97]], .joiner [120, 59], ⟨[123], [], [125]⟩, [47, 47, 33, 10]⟩
     let same : Kind → Nat → List Nat := fun _ _ => [47]
     let byIndex : Kind → Nat → List Nat := fun _ i => [48 + i]
+    let own : OwnPaths := ⟨[76], [77], [66]⟩
     tupleOf ctx c1 = tupleOf ctx c2 ∧ refsOf same c1.out = refsOf same c2.out ∧
-    finalContents same c1.out = [97, 98, 99] ∧
+    finalFile ctx c1 same own = [97, 98, 99] ∧
     tupleOf ctx c3 = tupleOf ctx c4 ∧ refsOf same c3.out = refsOf same c4.out ∧
-    finalContents same c3.out = [97, 98, 47, 99] ∧
+    finalFile ctx c3 same own = [97, 98, 47, 99] ∧
     refsOf byIndex c3.out ≠ refsOf byIndex c4.out ∧
-    finalContents byIndex c3.out ≠ finalContents byIndex c4.out := by
+    finalFile ctx c3 byIndex own ≠ finalFile ctx c4 byIndex own ∧
+    finalFile ctx c5 same own
+      = [120, 59, 10] ++ ascii "/*! For license information please see L */\n"
+          ++ ascii "//# sourceMappingURL=M\n" ∧
+    finalFile ⟨[], [], 3, 3⟩ c5 same own ≠ finalFile ctx c5 same own ∧
+    tupleOf ⟨[], [], 3, 3⟩ c5 ≠ tupleOf ctx c5 := by
   decide
 
 /-! ## 3. The hashed name -/
